@@ -1,4 +1,4 @@
-from checks import mibcompile, oidindex, atomicwrite, searcher
+from checks import mibcompile, oidindex, atomicwrite, searcher, readerlookup
 
 RULE_MC = ('scenario = terminal state of MibCompile.tla exported by TLC (request x lazily chosen answers of every '
            'component x options); non-trivial = at least one component answered with a failure / fresh / borrow; '
@@ -28,3 +28,22 @@ REGISTRY['C18'] = {'run': oidindex.run, 'replay': oidindex.replay, 'finish': {
 
 REGISTRY['C13'] = {'run': atomicwrite.run, 'replay': atomicwrite.replay, 'finish': {
     'rule': 'schedule = terminal behaviour of AtomicWrite.tla (writer kind x 1-2 writers x one fault per writer at any system call x fresh/existing destination x dry-run); non-trivial = a fault is injected or two writers interleave; distinct by (faults, call order, initial state)', 'exhaustive': False}}
+
+REGISTRY['C14'] = {'run': readerlookup.run, 'replay': readerlookup.replay, 'finish': {
+    'rule': 'scenario = reachable state of ReaderLookup.tla (request name x matching options x extension family x .index mapping x <=2 entries from a universe of variants and near-misses at 3 nesting levels), each materialised as a directory tree and as a ZIP archive; non-trivial = at least one entry; distinct by scenario', 'exhaustive': False}}
+
+
+def _c19(out, prop, tier, seed, **kw):
+    mibcompile.run(out, prop, tier, seed, **kw)
+    if not kw.get('only_slices'):
+        readerlookup.run(out, prop, tier, seed)
+
+
+def _c19_replay(path):
+    import json
+    with open(path) as fh:
+        kind = json.load(fh)['replay'].get('kind')
+    return readerlookup.replay(path) if kind in ('readerlookup', 'url') else mibcompile.replay(path)
+
+
+REGISTRY['C19'] = {'run': _c19, 'replay': _c19_replay, 'finish': {'rule': RULE_MC + '; plus the borrower-extension scenarios of ReaderLookup.tla', 'exhaustive': True}}
